@@ -1,6 +1,9 @@
-// C12 harness (implementation-only, "no_model"): RANK CONSISTENCY of the distributed Krylov solvers that are not yet written
-// in the lockstep instruction set: amgcl::mpi::solver::bicgstabl and amgcl::mpi::solver::idrs (the serial templates
+// C12 harness (implementation-only, "no_model"): RANK CONSISTENCY of the distributed Krylov solvers with dense work on
+// replicated scalars: amgcl::mpi::solver::bicgstabl and amgcl::mpi::solver::idrs (the serial templates
 // amgcl/solver/{bicgstabl,idrs}.hpp with InnerProduct = mpi::inner_product).  Real MPI, double, 1 OpenMP thread.
+// The Lean side is Properties/C12e.lean (dist_bicgstabl_eq_serial, dist_idrs_eq_serial on the instruction-set programs,
+// tied to the serial templates at exact rationals by h_lockstep); MPI has no exact rational type, so THIS harness stays
+// implementation-vs-implementation.
 //
 //   mkry sv pc a b c d maxiter <part> A f x0
 //        sv 0: bicgstabl   a = L (1..4), b = convex (0|1), c = delta (0 -> 0, 1 -> 0.01), d = pside (0 left, 1 right)
